@@ -78,6 +78,86 @@ class _Resp:
         return False
 
 
+class _Transport:
+    """everything goes through the public surface of urllib: OpenerDirector.open hands the prepared request to the
+    recorder of the current execution; build_opener returns a bare OpenerDirector (the default one loads the system
+    certificate store, about 30 ms per connection)"""
+    current = None
+
+    def __enter__(self):
+        import urllib.request as ur
+        self.ur = ur
+        self.saved = (ur.build_opener, ur.OpenerDirector.open)
+        ur.build_opener = lambda *handlers: ur.OpenerDirector()
+        ur.OpenerDirector.open = lambda od, request, *a, **k: _Transport.current(request)
+        return self
+
+    def __exit__(self, *a):
+        self.ur.build_opener, self.ur.OpenerDirector.open = self.saved
+        _Transport.current = None
+        return False
+
+
+def _reach(root, mod_name, depth=4):
+    """objects of classes defined in module `mod_name` that are reachable from root (attributes, slots, containers)"""
+    out, seen, todo = [], set(), [(root, 0)]
+    while todo:
+        o, d = todo.pop()
+        if id(o) in seen:
+            continue
+        seen.add(id(o))
+        mine = getattr(type(o), '__module__', None) == mod_name
+        if mine:
+            out.append(o)
+        if d >= depth:
+            continue
+        kids = []
+        if isinstance(o, (list, tuple, set, frozenset)):
+            kids = list(o)
+        elif isinstance(o, dict):
+            kids = list(o.values())
+        elif mine:
+            names = list(getattr(o, '__dict__', {}))
+            for c in type(o).__mro__:
+                sl = c.__dict__.get('__slots__', ())
+                names += [sl] if isinstance(sl, str) else list(sl)
+            for n in names:
+                try:
+                    kids.append(getattr(o, n))
+                except Exception:
+                    pass
+        todo += [(k, d + 1) for k in kids]
+    return out
+
+
+def _shared_state(conn_http, base, derived):
+    """the objects (of classes of ak.conn_http) that a connection and a connection derived from it have in common, the
+    two connections themselves and request adapters left out: the underlying connection and what hangs below it"""
+    mod = conn_http.__name__
+    below_derived = {id(x) for x in _reach(derived, mod)}
+    return [x for x in _reach(base, mod) if id(x) in below_derived and x is not base and x is not derived
+            and not isinstance(x, conn_http.RequestAdapter)]
+
+
+_LOCK_TYPES = None
+
+
+def _static_locks(conn_http):
+    """locks created when the module was imported (module globals, class attributes): [(owner, name)]"""
+    global _LOCK_TYPES
+    import threading as _t
+    import inspect
+    if _LOCK_TYPES is None:
+        _LOCK_TYPES = (type(_t.Lock()), type(_t.RLock()))
+    found = []
+    owners = [conn_http] + [v for v in vars(conn_http).values() if inspect.isclass(v) and v.__module__ == conn_http.__name__]
+    for ow in owners:
+        for n, v in list(vars(ow).items()):
+            if isinstance(v, _LOCK_TYPES) or isinstance(v, sched._Shim):
+                found.append((ow, n))
+    return found
+
+
 def _mc_cfg(nt, reqs, start=0):
     return ('SPECIFICATION Spec\nCHECK_DEADLOCK FALSE\nCONSTANTS\n  Threads = {%s}\n  Reqs = %d\n'
             '  OwnChoices <- OwnChoicesStd\n  FailChoices <- FailChoicesStd\n  RejectChoices <- RejectChoicesStd\n  Start = %d\nINVARIANT Unique\nINVARIANT GapFree\nINVARIANT CounterCounts\n'
@@ -117,16 +197,25 @@ def run(ctx):
             raise Machinery(str(e))
         ctx.extra['apalache_inductive_invariant'] = steps
     # 2. all schedules of the real code, each execution recorded
-    conn_http._HttpConnImpl._make_opener = staticmethod(lambda is_https, if_http_debug=False: None)
+    transport = _Transport()
+    transport.__enter__()
     holder = {}
-    sch = sched.Scheduler(conn_http._HttpConnImpl, lambda: holder.get('impl'))
+    # which objects carry the state that connections derived from one another share is found out on a probe pair
+    probe = conn_http.HttpConn('http://h:1')
+    shared_classes = sorted({type(o) for o in _shared_state(conn_http, probe, conn_http.HttpConn(probe))}, key=lambda c: c.__name__)
+    if not shared_classes:
+        raise Machinery('a connection and a connection derived from it share no object of ak.conn_http')
+    sch = sched.Scheduler(shared_classes, lambda: holder.get('objs', []))
+    ctx.extra['shared_state_classes'] = [c.__name__ for c in shared_classes]
     ctx.extra['shared_attribute_names'] = sorted(sch.names)
     ctx.extra['yield_points'] = sum(len(v) for v in sch.codes.values())
-    if '_cur_req_id' not in sch.names and not sch.names:
-        ctx.note_drift('no shared mutable attribute found in _HttpConnImpl')
+    if not sch.names:
+        ctx.note_drift('no attribute of the shared objects is stored to outside __init__: only lock operations are scheduling points')
     sched.install(sch)
     real_threading = conn_http.threading
     conn_http.threading = sched.ThreadingShim(sch)       # locks created by the module (also lazily) are cooperative
+    static_locks = _static_locks(conn_http)              # locks created at import time: replaced by cooperative ones per execution
+    static_saved = [(ow, n, getattr(ow, n)) for ow, n in static_locks]
     groups = {}
     total = 0
     limit = 12000 if ctx.quick else 200000
@@ -140,12 +229,17 @@ def run(ctx):
             drop = cfg[7] if len(cfg) > 7 else []
 
             def make_bodies(nt=nt, reqs=reqs, own=own, fail=fail, shared=shared, start=start, rej=rej, drop=drop):
+                for ow, n in static_locks:
+                    setattr(ow, n, sched._Shim(sch))
                 base = conn_http.HttpConn('http://h:1')
-                impl = base.conn_impl
-                holder['impl'] = impl
-                part = impl._reqid_connection_part
+                holder['objs'] = _shared_state(conn_http, base, conn_http.HttpConn(base))
+                part = []                 # the connection part of the generated ids: whatever the first one shows
                 if start:
-                    impl._cur_req_id = start          # the state of a connection that has served `start` requests
+                    # the state of a connection that has served `start` requests
+                    cnt = [o for o in holder['objs'] if isinstance(getattr(o, '_cur_req_id', None), int)]
+                    if len(cnt) != 1:
+                        return None, None, 'skip'
+                    cnt[0]._cur_req_id = start
 
                 class Op:
                     def open(self, request):
@@ -159,7 +253,9 @@ def run(ctx):
                             v = -1 if str(rid) == want else -2
                         else:
                             m = _ID.match(str(rid))
-                            v = int(m.group(3)) if (m and m.group(1) == part and int(m.group(2)) == int(m.group(3)) % 10000) else -3
+                            if m and not part:
+                                part.append(m.group(1))
+                            v = int(m.group(3)) if (m and m.group(1) == part[0] and int(m.group(2)) == int(m.group(3)) % 10000) else -3
                         sch.trace.append({'t': tid, 'k': 'send', 'v': v})
                         key = (tid, cur.get(tid))
                         if key in dropped:
@@ -167,7 +263,7 @@ def run(ctx):
                             import http.client
                             raise http.client.RemoteDisconnected('Remote end closed connection without response')
                         return _Resp()
-                impl.opener = Op()
+                _Transport.current = Op().open
                 cur = {}
                 dropped = set(tuple(x) for x in drop)
                 conns = [base, conn_http.ClientAuthConn(base, 'cname', 'u', 'p'), conn_http.HttpConn(base),
@@ -210,6 +306,9 @@ def run(ctx):
                 return bodies, finish, None
             # caller supplied ids are recognised in the opener through the X-Mine echo header
             execs = []
+            if make_bodies()[2] == 'skip':
+                ctx.note_drift('the counter of the shared state is not an int attribute _cur_req_id: the configuration that starts at %d is skipped' % start)
+                continue
             for res in sched.explore_sleep(sch, make_bodies, limit=limit):
                 execs.append(res)
             total += len(execs)
@@ -221,6 +320,9 @@ def run(ctx):
     finally:
         sched.uninstall(sch)
         conn_http.threading = real_threading
+        for ow, n, v in static_saved:
+            setattr(ow, n, v)
+        transport.__exit__()
     # 3. trace validation
     nviol = 0
     for (nt, reqs), execs in groups.items():
@@ -267,22 +369,31 @@ def run(ctx):
 
 def replay(ctx, case):
     from ak import conn_http
-    conn_http._HttpConnImpl._make_opener = staticmethod(lambda is_https, if_http_debug=False: None)
+    transport = _Transport()
+    transport.__enter__()
     holder = {}
-    sch = sched.Scheduler(conn_http._HttpConnImpl, lambda: holder.get('impl'))
+    probe = conn_http.HttpConn('http://h:1')
+    shared_classes = sorted({type(o) for o in _shared_state(conn_http, probe, conn_http.HttpConn(probe))}, key=lambda c: c.__name__)
+    sch = sched.Scheduler(shared_classes, lambda: holder.get('objs', []))
     sched.install(sch)
     real_threading = conn_http.threading
     conn_http.threading = sched.ThreadingShim(sch)
+    static_locks = _static_locks(conn_http)
+    static_saved = [(ow, n, getattr(ow, n)) for ow, n in static_locks]
     try:
+        for ow, n in static_locks:
+            setattr(ow, n, sched._Shim(sch))
         nt, reqs, own = case['threads'], case['reqs'], [tuple(x) for x in case['own']]
         fail = [tuple(x) for x in case.get('fail', [])]
         caller_headers = {'Accept': 'text/plain'} if case.get('shared_headers') else None
         base = conn_http.HttpConn('http://h:1')
-        impl = base.conn_impl
-        holder['impl'] = impl
+        holder['objs'] = _shared_state(conn_http, base, conn_http.HttpConn(base))
         start = case.get('start', 0)
         if start:
-            impl._cur_req_id = start
+            cnt = [o for o in holder['objs'] if isinstance(getattr(o, '_cur_req_id', None), int)]
+            if len(cnt) != 1:
+                return None
+            cnt[0]._cur_req_id = start
         seen = []
 
         class Op:
@@ -296,7 +407,7 @@ def replay(ctx, case):
                     import http.client
                     raise http.client.RemoteDisconnected('Remote end closed connection without response')
                 return _Resp()
-        impl.opener = Op()
+        _Transport.current = Op().open
         conns = [base, conn_http.ClientAuthConn(base, 'cname', 'u', 'p'), conn_http.HttpConn(base),
                  conn_http.BAuthConn(base, 'u', 'p'), conn_http.TokenAuthConn(conn_http.HttpConn(base), 'tok', 'descr')]
         bodies = []
@@ -334,6 +445,9 @@ def replay(ctx, case):
     finally:
         sched.uninstall(sch)
         conn_http.threading = real_threading
+        for ow, n, v in static_saved:
+            setattr(ow, n, v)
+        transport.__exit__()
     if any(str(s).startswith('altered-') for s in seen):
         return 'a caller supplied id was altered: %s' % seen
     gen = [s for s in seen if s and not str(s).startswith('mine-')]
